@@ -49,6 +49,23 @@ Proof.
 Qed.
 Print Assumptions C03_engine_settles_and_agrees.
 
+(** ... and the engine never hangs with work in flight: in every state of such a history that is not quiet - or in
+    which a re-initialisation is due - a step of the engine itself is enabled (no command, crash or watchdog is
+    needed).  So the engine can only come to rest in the settled states of the theorem above. *)
+Theorem C03_engine_never_stuck : forall tasks deps validate (rank : Z -> nat),
+  NoDup tasks ->
+  (forall t d, In d (deps t) -> (rank d < rank t)%nat) ->
+  (forall t d, In t tasks -> In d (deps t) -> In d tasks) ->
+  forall ls s, run tasks deps validate true true boot ls = Some s ->
+  quiet tasks s = false \/ ph s = PInit \/ ph s = PDown ->
+  exists l s', external l = false /\ step tasks deps validate true true s l = Some s'.
+Proof.
+  intros tasks deps validate rank Hnd Hrank Hclosed ls s Hr Hq.
+  apply (engine_not_stuck tasks deps validate s); [|exact Hq].
+  exact (invq_reach tasks deps validate rank Hnd Hrank Hclosed ls boot s (invq_boot tasks deps) Hr).
+Qed.
+Print Assumptions C03_engine_never_stuck.
+
 Theorem C03_engine_stale_event_refuted :
   exists s, run [1]%Z nodeps true false true boot w_stale_event = Some s /\
             Quiescent [1]%Z s /\ ins s = IFailed /\ store s 1%Z = SInit.
